@@ -364,11 +364,34 @@ let cmd_totals args =
         (int_of_nat t.n_packed) (int_of_nat t.n_loose) (int_of_nat t.n_packfiles)
   | _ -> failwith "totals: bad args"
 
+(* vscan | rows k:p:o:l:c:s:hk:cs,... (hk = key the re-read hashes to, cs = its length; hk = -1: the read raises) | loose k:hk,...
+   -> raises | ih;is;ov;il (comma separated keys) *)
+let cmd_vscan args =
+  match List.map String.trim (String.split_on_char '|' args) with
+  | [_; rs; ls] ->
+      let tab = Hashtbl.create 64 in
+      let row s = (match List.map int_of_string (String.split_on_char ':' s) with
+        | [k; p; o; l; c; sz; hk; cs] ->
+            let r = { rkey = n_of_int k; rpack = z_of_int p; roff = nat_of_int o; rlen = nat_of_int l; rcomp = (c = 1); rsize = nat_of_int sz } in
+            Hashtbl.replace tab k (if hk < 0 then None else Some (n_of_int hk, nat_of_int cs)); r
+        | _ -> failwith "vscan: bad row") in
+      let rows = List.map row (split_on ',' rs) in
+      let ltab = Hashtbl.create 16 in
+      let names = List.map (fun s -> match List.map int_of_string (String.split_on_char ':' s) with
+        | [k; hk] -> Hashtbl.replace ltab k hk; n_of_int k | _ -> failwith "vscan: bad loose") (split_on ',' ls) in
+      let rd r = match Hashtbl.find_opt tab (int_of_n r.rkey) with Some x -> x | None -> None in
+      let lh k = match Hashtbl.find_opt ltab (int_of_n k) with Some h -> n_of_int h | None -> k in
+      let ks l = String.concat "," (List.map (fun k -> string_of_int (int_of_n k)) l) in
+      (match validate_f rd rows names lh with
+       | None -> print_endline "raises"
+       | Some (((ih, is), ov), il) -> Printf.printf "%s;%s;%s;%s\n" (ks ih) (ks is) (ks ov) (ks il))
+  | _ -> failwith "vscan: bad args"
+
 let cmd_backup_phases _ =
   print_endline (String.concat "," (List.map (function PhLoose -> "loose" | PhDump -> "dump" | PhCopyDump -> "copydump" | PhPacks -> "packs" | PhRest -> "rest") backup_phases))
 
 let () =
-  let extra = ref [("backup_phases", cmd_backup_phases); ("totals", cmd_totals); ("lookup", cmd_lookup_gen None); ("lookup_events", cmd_lookup_gen (Some true)); ("lookup_events_meta", cmd_lookup_gen (Some false)); ("pick", cmd_pick); ("estimate", cmd_estimate); ("plan", cmd_plan); ("segs", cmd_segs); ("por", cmd_por); ("bio", cmd_bio true); ("fio", cmd_bio false); ("zsd", cmd_zsd)] in
+  let extra = ref [("backup_phases", cmd_backup_phases); ("totals", cmd_totals); ("vscan", cmd_vscan); ("lookup", cmd_lookup_gen None); ("lookup_events", cmd_lookup_gen (Some true)); ("lookup_events_meta", cmd_lookup_gen (Some false)); ("pick", cmd_pick); ("estimate", cmd_estimate); ("plan", cmd_plan); ("segs", cmd_segs); ("por", cmd_por); ("bio", cmd_bio true); ("fio", cmd_bio false); ("zsd", cmd_zsd)] in
   try
     while true do
       let line = input_line stdin in
